@@ -501,8 +501,16 @@ func ruleP2c11(c *Ctx) {
 					r.Discharge("P2", key, c.P.pos(ta.Pos()), "no construction site of this operation type stores other preferences")
 					continue
 				}
+				onlyUnresolved := len(bad) > 0
+				for _, b := range bad {
+					if b != "?" {
+						onlyUnresolved = false
+					}
+				}
 				if len(bad) == 0 {
 					r.Discharge("P2", key, c.P.pos(ta.Pos()), fmt.Sprintf("every construction site of %s stores %s", ty, want))
+				} else if onlyUnresolved {
+					r.Undecided("P2", key, c.P.pos(ta.Pos()), fmt.Sprintf("a construction site of %s stores preferences whose dynamic type could not be resolved from the code: shape not recognised", ty))
 				} else {
 					sort.Strings(bad)
 					r.Finding("P2", key, c.P.pos(ta.Pos()), fmt.Sprintf("handler asserts Preferences.(%s) but operation type %s is also built with Preferences of type %s: interface conversion panic when that expression is evaluated", want, ty, strings.Join(bad, ", ")))
